@@ -92,14 +92,14 @@ func RaftNode.Add
 
 func RaftNode.QueryDigestMembership
   props C11
-  requires n.metrics != nil && n.balloon != nil && HyperOK(n.balloon.hyperTree) && n.balloon.historyTree != nil && n.balloon.hasherF != nil
+  requires n.metrics != nil && n.balloon != nil && HyperOK(n.balloon.hyperTree) && n.balloon.historyTree != nil && n.balloon.hasherF != nil && pure_fn(n.balloon.hasherF)
   may_panic
-  modifies everything
+  modifies everything, proveCalls, lastProveVersion
 func RaftNode.QueryDigestMembershipConsistency
   props C11
-  requires n.metrics != nil && n.balloon != nil && HyperOK(n.balloon.hyperTree) && n.balloon.historyTree != nil && n.balloon.hasherF != nil
+  requires n.metrics != nil && n.balloon != nil && HyperOK(n.balloon.hyperTree) && n.balloon.historyTree != nil && n.balloon.hasherF != nil && pure_fn(n.balloon.hasherF)
   may_panic
-  modifies everything
+  modifies everything, proveCalls, lastProveVersion
 func RaftNode.QueryConsistency
   props C11
   requires n.metrics != nil && n.balloon != nil && n.balloon.historyTree != nil && n.balloon.hasherF != nil
